@@ -11,6 +11,75 @@ use crate::verif::ghost::{self, g, Act, MAX_OBJ};
 use crate::verif::probes::*;
 use crate::Cc;
 
+
+// ------------------------------------------------------------------------------------------------
+// Non-blocking obligations.  `kani::assert` is assert-then-assume: a failing obligation would cut the
+// path and hide every later one (in particular the behavioural witness that must accompany a broken
+// invariant clause).  The oracles therefore only RECORD failures; `finish()` reports each obligation
+// under its own nondeterministically selected branch, so that all failing obligations are listed.
+// ------------------------------------------------------------------------------------------------
+macro_rules! obligations {
+    ($($id:ident = $name:literal),* $(,)?) => {
+        #[derive(Clone, Copy)]
+        #[repr(usize)]
+        pub(crate) enum Ob { $($id),*, N_ }
+        pub(crate) fn finish() {
+            let sel: usize = kani::any();
+            let mut k = 0usize;
+            $(
+                if sel == k {
+                    kani::assert(!unsafe { FAILED[Ob::$id as usize] }, $name);
+                }
+                k += 1;
+            )*
+            let _ = k;
+        }
+    };
+}
+pub(crate) static mut FAILED: [bool; 64] = [false; 64];
+pub(crate) fn soft(cond: bool, ob: Ob) {
+    if !cond {
+        unsafe { FAILED[ob as usize] = true };
+    }
+}
+obligations! {
+    OExecs = "C11::executions_count_plus_one_per_collection",
+    OLater = "C07::later_collection_can_start",
+    O0 = "C01::reachable_object_never_dropped",
+    O1 = "C01::reachable_object_value_intact",
+    O2 = "C01::reachable_object_strong_count_positive",
+    O3 = "C04::strong_count_equals_number_of_existing_pointers",
+    O4 = "C04::strong_count_never_too_low_after_caught_panic",
+    O5 = "Inv_idle::I1::only_unmarked_or_buffered_outside_collections",
+    O6 = "Inv_idle::I3::buffered_object_has_tracing_counter_zero",
+    O7 = "Inv_idle::I2::unbuffered_object_unlinked",
+    O8 = "C03::dropped_at_most_once",
+    O9 = "C05::finalized_at_most_once",
+    O10 = "C05::finalize_before_drop",
+    O11 = "C05::live_object_never_finalized",
+    O12 = "C03::no_double_drop_no_corruption",
+    O13 = "C05::no_callback_on_dropped_value",
+    O14 = "C05::finalizer_sees_only_undropped_neighbours",
+    O15 = "C05::finalized_flag_set_before_finalizer",
+    O16 = "C05::created_in_finalizer_is_already_finalized",
+    O17 = "C05::no_finalizer_without_feature",
+    O18 = "C12::trace_runs_with_is_tracing_true",
+    O19 = "C12::finalize_and_drop_run_with_is_tracing_false",
+    O20 = "C08::upgrade_never_yields_dropped_value",
+    O21 = "C08::marked_dropped_before_destructor",
+    O22 = "Inv_idle::I1::collector_flags_clear",
+    O23 = "C07::is_tracing_false_outside_collections",
+    O24 = "C11::allocated_bytes_equals_sum_of_live_boxes",
+    O25 = "C11::allocated_bytes_at_least_live_boxes_after_caught_panic",
+    O26 = "C11::buffered_count_equals_buffer_length",
+    O27 = "Inv_idle::I2::buffer_members_marked_buffered",
+    O28 = "C11::buffered_objects_count_getter",
+    O29 = "C02::unreachable_object_dropped",
+    O30 = "C02::unreachable_object_finalized_iff_due",
+    O31 = "C02::allocated_bytes_zero_when_nothing_remains",
+    O32 = "C02::collection_reached_fixpoint"
+}
+
 pub(crate) const S0: u8 = 0;
 pub(crate) const S1: u8 = 1;
 pub(crate) const HID: u8 = 2;
@@ -123,6 +192,14 @@ pub(crate) fn fault(kind: u8, k: u16) {
 pub(crate) fn collect() {
     crate::collect_cycles();
 }
+/// the emulated catch_unwind at the API boundary (A-UNWIND): was a panic propagating?
+pub(crate) fn caught() -> bool {
+    ghost::catch()
+}
+/// no fault armed any more
+pub(crate) fn disarm() {
+    g().fault_kind = 0;
+}
 
 // ------------------------------------------------------------------------------------------------
 // oracles
@@ -214,12 +291,12 @@ pub(crate) fn check_safety(n: usize, live0: [bool; MAX_OBJ], panic_free: bool) {
     while i < n {
         if r[i] {
             // C01: reachable => not dropped, not freed (the reads below are checked by CBMC), intact
-            kani::assert(gs.drop_calls[i] == 0, "C01::reachable_object_never_dropped");
+            soft(gs.drop_calls[i] == 0, Ob::O0);
             if gs.drop_calls[i] == 0 {
                 let p = ccp::reg(i);
                 let nd = ccp::node_of(unsafe { ccp::REG[i].unwrap() });
-                kani::assert(nd.intact(), "C01::reachable_object_value_intact");
-                kani::assert(ccp::count_of(p) >= 1, "C01::reachable_object_strong_count_positive");
+                soft(nd.intact(), Ob::O1);
+                soft(ccp::count_of(p) >= 1, Ob::O2);
             }
         }
         if gs.drop_calls[i] == 0 && !g_moved(i) {
@@ -228,60 +305,60 @@ pub(crate) fn check_safety(n: usize, live0: [bool; MAX_OBJ], panic_free: bool) {
             let cnt = ccp::count_of(p);
             let gc = ghost_cc(i, n);
             if panic_free {
-                kani::assert(cnt == gc, "C04::strong_count_equals_number_of_existing_pointers");
+                soft(cnt == gc, Ob::O3);
             } else {
-                kani::assert(cnt >= gc, "C04::strong_count_never_too_low_after_caught_panic");
+                soft(cnt >= gc, Ob::O4);
             }
             // Inv_idle: I1 marks, I2 links, I3 buffered => tracing counter 0
             let m = ccp::mark_of(p);
-            kani::assert(m == 0 || m == 1, "Inv_idle::I1::only_unmarked_or_buffered_outside_collections");
+            soft(m == 0 || m == 1, Ob::O5);
             if m == 1 {
-                kani::assert(ccp::tracing_of(p) == 0, "Inv_idle::I3::buffered_object_has_tracing_counter_zero");
+                soft(ccp::tracing_of(p) == 0, Ob::O6);
             } else {
-                kani::assert(ccp::next_of(p).is_none() && ccp::prev_of(p).is_none(), "Inv_idle::I2::unbuffered_object_unlinked");
+                soft(ccp::next_of(p).is_none() && ccp::prev_of(p).is_none(), Ob::O7);
             }
         }
         // C03 / C05 counters
-        kani::assert(gs.drop_calls[i] <= 1, "C03::dropped_at_most_once");
-        kani::assert(gs.finalize_calls[i] <= 1, "C05::finalized_at_most_once");
+        soft(gs.drop_calls[i] <= 1, Ob::O8);
+        soft(gs.finalize_calls[i] <= 1, Ob::O9);
         if gs.finalize_calls[i] != 0 && gs.drop_calls[i] != 0 {
-            kani::assert(gs.first_fin_seq[i] < gs.first_drop_seq[i], "C05::finalize_before_drop");
+            soft(gs.first_fin_seq[i] < gs.first_drop_seq[i], Ob::O10);
         }
         if live0[i] {
-            kani::assert(gs.finalize_calls[i] == 0, "C05::live_object_never_finalized");
+            soft(gs.finalize_calls[i] == 0, Ob::O11);
         }
         i += 1;
     }
-    kani::assert(gs.double_drop == 0 && gs.canary_broken == 0, "C03::no_double_drop_no_corruption");
-    kani::assert(gs.fin_after_drop == 0 && gs.trace_after_drop == 0, "C05::no_callback_on_dropped_value");
-    kani::assert(gs.fin_saw_dropped_neighbour == 0, "C05::finalizer_sees_only_undropped_neighbours");
-    kani::assert(gs.fin_bit_unset_in_cb == 0, "C05::finalized_flag_set_before_finalizer");
-    kani::assert(gs.new_in_finalizer_not_marked_finalized == 0, "C05::created_in_finalizer_is_already_finalized");
-    kani::assert(gs.fin_without_feature == 0, "C05::no_finalizer_without_feature");
-    kani::assert(gs.trace_not_tracing == 0, "C12::trace_runs_with_is_tracing_true");
-    kani::assert(gs.fin_while_tracing == 0 && gs.drop_while_tracing == 0, "C12::finalize_and_drop_run_with_is_tracing_false");
-    kani::assert(gs.upgrade_gave_dropped == 0, "C08::upgrade_never_yields_dropped_value");
-    kani::assert(gs.drop_not_marked_dropped == 0, "C08::marked_dropped_before_destructor");
+    soft(gs.double_drop == 0 && gs.canary_broken == 0, Ob::O12);
+    soft(gs.fin_after_drop == 0 && gs.trace_after_drop == 0, Ob::O13);
+    soft(gs.fin_saw_dropped_neighbour == 0, Ob::O14);
+    soft(gs.fin_bit_unset_in_cb == 0, Ob::O15);
+    soft(gs.new_in_finalizer_not_marked_finalized == 0, Ob::O16);
+    soft(gs.fin_without_feature == 0, Ob::O17);
+    soft(gs.trace_not_tracing == 0, Ob::O18);
+    soft(gs.fin_while_tracing == 0 && gs.drop_while_tracing == 0, Ob::O19);
+    soft(gs.upgrade_gave_dropped == 0, Ob::O20);
+    soft(gs.drop_not_marked_dropped == 0, Ob::O21);
     // collector idle
     let sn = state(|s| sp::snap(s));
-    kani::assert(!sn.collecting && !sn.finalizing && !sn.dropping, "Inv_idle::I1::collector_flags_clear");
-    kani::assert(!matches!(crate::state::is_tracing(), Ok(true)), "C07::is_tracing_false_outside_collections");
+    soft(!sn.collecting && !sn.finalizing && !sn.dropping, Ob::O22);
+    soft(!matches!(crate::state::is_tracing(), Ok(true)), Ob::O23);
     // C11: byte count and buffer
     if panic_free {
-        kani::assert(sn.bytes == live * ccp::NODE_BOX, "C11::allocated_bytes_equals_sum_of_live_boxes");
+        soft(sn.bytes == live * ccp::NODE_BOX, Ob::O24);
     } else {
-        kani::assert(sn.bytes >= live * ccp::NODE_BOX, "C11::allocated_bytes_at_least_live_boxes_after_caught_panic");
+        soft(sn.bytes >= live * ccp::NODE_BOX, Ob::O25);
     }
     let (s, size) = ccp::pc_view();
-    kani::assert(s.wf && s.len == size, "C11::buffered_count_equals_buffer_length");
+    soft(s.wf && s.len == size, Ob::O26);
     let mut k = 0;
     while k < s.len {
         if let Some(p) = s.e[k] {
-            kani::assert(ccp::mark_of(p) == 1, "Inv_idle::I2::buffer_members_marked_buffered");
+            soft(ccp::mark_of(p) == 1, Ob::O27);
         }
         k += 1;
     }
-    kani::assert(matches!(crate::state::buffered_objects_count(), Ok(v) if v == size), "C11::buffered_objects_count_getter");
+    soft(matches!(crate::state::buffered_objects_count(), Ok(v) if v == size), Ob::O28);
 }
 
 /// C02: every object of `mask` has been (finalized if due,) dropped exactly once and freed.
@@ -290,9 +367,9 @@ pub(crate) fn check_reclaimed(n: usize, mask: [bool; MAX_OBJ], due: [bool; MAX_O
     let mut i = 0;
     while i < n {
         if mask[i] {
-            kani::assert(gs.drop_calls[i] == 1, "C02::unreachable_object_dropped");
+            soft(gs.drop_calls[i] == 1, Ob::O29);
             #[cfg(feature = "finalization")]
-            kani::assert(gs.finalize_calls[i] == if due[i] { 1 } else { 0 }, "C02::unreachable_object_finalized_iff_due");
+            soft(gs.finalize_calls[i] == if due[i] { 1 } else { 0 }, Ob::O30);
         }
         i += 1;
     }
@@ -302,18 +379,24 @@ pub(crate) fn check_all_dropped(n: usize) {
     let gs = g();
     let mut i = 0;
     while i < n {
-        kani::assert(gs.drop_calls[i] == 1, "C02::unreachable_object_dropped");
+        soft(gs.drop_calls[i] == 1, Ob::O29);
         i += 1;
     }
-    kani::assert(state(|s| sp::snap(s)).bytes == 0, "C02::allocated_bytes_zero_when_nothing_remains");
+    soft(state(|s| sp::snap(s)).bytes == 0, Ob::O31);
 }
 /// the buffer is empty and a further collection would run no callback
 pub(crate) fn check_quiescent() {
     let before = ccp::cb_counts();
     let fd0 = (g().n_fin, g().n_drop);
     crate::collect_cycles();
-    kani::assert((g().n_fin, g().n_drop) == fd0, "C02::collection_reached_fixpoint");
+    soft((g().n_fin, g().n_drop) == fd0, Ob::O32);
 }
 pub(crate) fn execs() -> usize {
     state(|s| sp::snap(s)).execs
+}
+pub(crate) fn check_execs(expect: usize) {
+    soft(execs() == expect, Ob::OExecs);
+}
+pub(crate) fn check_later_collection(expect: usize) {
+    soft(execs() == expect && !caught(), Ob::OLater);
 }
